@@ -27,7 +27,8 @@ OPTS = ("head", "tail", "sample", "random_state", "lazy", "inplace")
 
 def _mk(target, receiver_classes, data):
     class V(Contract):
-        raises = (SchemaError, SchemaErrors, SchemaDefinitionError, OtherException)
+        # C06: "... or a documented usage error (SchemaDefinitionError, SchemaInitError, TypeError for a non-dataframe argument)"
+        raises = (SchemaError, SchemaErrors, SchemaDefinitionError, OtherException, TypeError)
         split = {"receiver": [c.__name__ for c in receiver_classes]}
 
         def setup(self, I):
@@ -49,6 +50,11 @@ def _mk(target, receiver_classes, data):
 
             def get_backend(I, cls_or_self, *a, **k):
                 cur().ghost.setdefault("lookups", []).append(a)
+                # (C07 GetBackend: the back end registered for the type of the argument, else BackendNotFoundError)
+                if cur().choose([("registered", None), ("no_backend_for_this_type_of_argument", None)], "get_backend") == 1:
+                    from pandera.errors import BackendNotFoundError
+
+                    raise PyExc(I.make_exc(BackendNotFoundError, "Backend not found for backend, class: ..."))
                 return Backend()
 
             I.models[id(BaseSchema.get_backend.__func__)] = get_backend
@@ -86,6 +92,10 @@ def _mk(target, receiver_classes, data):
 
         def on_raise(self, exc, old, self_, check_obj, **kw):
             calls = cur().ghost.get("backend_calls", [])
+            from pandera.errors import BackendNotFoundError
+
+            if exc.cls is BackendNotFoundError:
+                return {"a_failed_lookup_calls_no_back_end": calls == []}
             return {"raises_only_what_the_backend_raised": len(calls) == 1}
 
         def concretize(self, rec):
@@ -112,6 +122,24 @@ def _mk(target, receiver_classes, data):
                         except Exception as e:  # noqa: BLE001
                             obs[name] = f"validated anyway: {type(e).__name__}"
                             bad = True
+                # C06: an argument that is no dataframe at all is a TypeError (a documented usage error), on every entry point
+                if "receiver='DataFrameSchema'" in recv or "receiver=" not in recv:
+                    import polars as pl
+                    import pandera.polars as pp
+
+                    for name, call in (("pandas DataFrameSchema.validate([1, 2])", lambda: pa.DataFrameSchema({"a": pa.Column(int)}).validate([1, 2])),
+                                       ("polars DataFrameSchema.validate(pandas frame)", lambda: pp.DataFrameSchema({"a": pp.Column(int)}).validate(pd.DataFrame({"a": [1]}))),
+                                       ("polars DataFrameSchema.validate([1, 2])", lambda: pp.DataFrameSchema({"a": pp.Column(int)}).validate([1, 2]))):
+                        try:
+                            call()
+                            got = "returned"
+                        except TypeError:
+                            got = "TypeError"
+                        except Exception as e:  # noqa: BLE001
+                            got = type(e).__name__
+                        if got != "TypeError":
+                            bad = True
+                            obs[name] = f"{got}, expected TypeError"
                 # C06: a column may have ANY name - also the name of an attribute some other dataframe library has ("dask", ...)
                 named = {}
                 if "receiver='DataFrameSchema'" in recv or "receiver=" not in recv:
